@@ -35,6 +35,27 @@ chk("C09", "model_checking",
     "trace-validated by TLC", "DESIGN.md section 4, C09")
 
 
+chk("C06", "model_checking",
+    "TLC enumerates (spec/GenTruth.tla) 31 representative values of every kind in every truthiness position "
+    "(!v, if, while) and all 961 ordered pairs for && and || with a side-effect probe as right operand; each "
+    "program is executed by the real pipeline and the execution validated by TLC against RefSem/Values.IsFalsey "
+    "(the documented table transcribed row by row). Filter-pattern position end to end through the binary. "
+    "Exhaustive over the representative table.",
+    "Representatives stand for their value class (zero / non-zero, empty / non-empty); trusts TLC, renderer and "
+    "value projection.",
+    "TLA+ reference semantics evaluated by TLC; TLC-enumerated table replayed into the implementation; executions "
+    "trace-validated by TLC", "DESIGN.md section 4, C06")
+
+chk("C10", "model_checking",
+    "TLC enumerates (spec/GenMaps.tla) all histories write(k1);write(k2);query(k3) over 16 keys (all cross-kind "
+    "equalities named by the property) x 3 ways of writing x 4 queries (thorough: all 36 864, quick: every 5th) "
+    "plus seeded random histories of 5-30 operations; executions are validated by TLC against Store's "
+    "association-list model (lookup by ValEq) via RefSem/Conform.",
+    "Equality between a byte and a number and keys of kind null are unspecified by the property and not compared.",
+    "TLA+ association-list model evaluated by TLC; TLC-enumerated histories replayed into the implementation; "
+    "executions trace-validated by TLC", "DESIGN.md section 4, C10")
+
+
 def main():
     props = [json.loads(l)["id"] for l in open(os.path.join(VERIF, "properties.jsonl"))]
     na = [{"property_id": p, "reason": NOT_APPLICABLE.get(p, "check not built yet in this round (planned, see DESIGN.md section 8)")}
